@@ -78,6 +78,9 @@ pub fn gen_attrs(rng: &mut Rng, ns: bool) -> (String, Vec<(String, String)>) {
             };
             let v = if rng.chance(1, 5) { "" } else { *rng.pick(NS_URIS) };
             (k, v.to_string())
+        } else if ns && rng.chance(1, 4) {
+            // xsi:nil look-alikes: whether they count depends on what the prefix resolves to
+            (rng.pick(&["p:nil", "q:nil", "r:nil", "nil", "p:nill"]).to_string(), rng.pick(&["true", "1", "false", "0", "x", " true", ""]).to_string())
         } else {
             (rng.pick(ATTR_KEYS).to_string(), rng.pick(ATTR_VALS).to_string())
         };
@@ -99,7 +102,7 @@ pub fn gen_attrs(rng: &mut Rng, ns: bool) -> (String, Vec<(String, String)>) {
     (raw, attrs)
 }
 
-pub const NS_URIS: &[&str] = &["u1", "u2", "urn:x"];
+pub const NS_URIS: &[&str] = &["u1", "u2", "urn:x", "http://www.w3.org/2001/XMLSchema-instance"];
 pub const NS_NAMES: &[&str] = &["a", "b", "p:a", "p:b", "q:a", "r:c", "c", "q:c"];
 
 pub fn tok_start(rng: &mut Rng, name: &str, ns: bool) -> Tok {
